@@ -110,7 +110,9 @@ def run_unicast(case, chooser=None):
             # already names an origin - the peer ("dst") or any other address - when it is handed to send()/write()
             hdr.from_node = dst if case["hdr_from"] == "dst" else case["hdr_from"]
         buf = bytearray(msg) if case.get("buftype") == "bytearray" else msg
-        if case["api"] == "send":
+        if case.get("mcast_level") is not None:
+            obs["ret"] = n.multicast(buf, case["mtype"], case["mcast_level"])  # (used by C06's end-to-end part)
+        elif case["api"] == "send":
             obs["ret"] = n.send(hdr, buf)
         else:
             obs["ret"] = n.write(H.RF24NetworkFrame(hdr, buf))
@@ -123,7 +125,12 @@ def run_unicast(case, chooser=None):
             mlen2, mtype2 = case["second"]
             msg2 = H.pattern(mlen2, case.get("seed", 0) + 1, salt=mlen2 + 5)
             obs["msg2"] = msg2
-            obs["ret2"] = n.send(H.RF24NetworkHeader(dst, mtype2), msg2)
+            if case.get("mcast_level") is not None:
+                if case.get("second_gap_ms"):
+                    net.serve(ctx, src, case["second_gap_ms"] * MS, hook)
+                obs["ret2"] = n.multicast(msg2, mtype2, case["mcast_level"])
+            else:
+                obs["ret2"] = n.send(H.RF24NetworkHeader(dst, mtype2), msg2)
         bad = N.listening_violations(n, net.radios[src])
         if bad:
             obs["c07"].append((src, "write", tuple(bad)))
